@@ -27,14 +27,20 @@ import (
 	"time"
 
 	"github.com/btcsuite/btcd/btcec/v2"
+	"github.com/btcsuite/btcd/btcjson"
 	"github.com/btcsuite/btcd/btcutil"
 	"github.com/btcsuite/btcd/btcutil/hdkeychain"
 	"github.com/btcsuite/btcd/chaincfg"
 	"github.com/btcsuite/btcd/chaincfg/chainhash"
 	"github.com/btcsuite/btcd/txscript"
+	"github.com/btcsuite/btcd/wire"
+	"github.com/btcsuite/btcwallet/chain"
+	"github.com/btcsuite/btcwallet/snacl"
 	"github.com/btcsuite/btcwallet/waddrmgr"
+	"github.com/btcsuite/btcwallet/wallet"
 	"github.com/btcsuite/btcwallet/walletdb"
 	_ "github.com/btcsuite/btcwallet/walletdb/bdb"
+	"github.com/btcsuite/btcwallet/wtxmgr"
 
 	"verifharness/internal/abortdb"
 	"verifharness/internal/core"
@@ -60,6 +66,9 @@ type op struct {
 	Ver  bool     `json:"ver"`
 	Key  int      `json:"key"`
 	Priv bool     `json:"priv"` // impkey through ImportPrivateKey instead of ImportPublicKey
+	// wallet mode only: the wallet API that performs the issuance -
+	// newaddress | newchange | createtx | createtxdry
+	Via string `json:"via,omitempty"`
 }
 
 type txIn struct {
@@ -69,7 +78,11 @@ type txIn struct {
 
 type input struct {
 	Scope uint32 `json:"scope"` // 84 or 44
-	Txs   []txIn `json:"txs"`
+	// Wallet: the history is driven through wallet.Wallet (NewAddress,
+	// NewChangeAddress, CreateSimpleTx with and without dryRun) instead of
+	// the address manager; every transaction then holds one issuance.
+	Wallet bool   `json:"wallet,omitempty"`
+	Txs    []txIn `json:"txs"`
 }
 
 // answer is the projected result of one call.
@@ -406,6 +419,22 @@ func newEnv() (*env, error) {
 		return nil, err
 	}
 	e.base[0] = img
+
+	// wallet template (same seed, so the address table is the same)
+	wpath := filepath.Join(dir, "wbase.db")
+	wdb, err := walletdb.Create("bdb", wpath, true, time.Minute, false)
+	if err != nil {
+		return nil, err
+	}
+	if err := wallet.Create(wdb, pubPass, privPass, root, params, birthday); err != nil {
+		return nil, err
+	}
+	if err := wdb.Close(); err != nil {
+		return nil, err
+	}
+	if e.base[1], err = os.ReadFile(wpath); err != nil {
+		return nil, err
+	}
 	return e, nil
 }
 
@@ -413,6 +442,140 @@ type inst struct {
 	db  *abortdb.DB
 	mgr *waddrmgr.Manager
 	sm  *waddrmgr.ScopedKeyManager
+	w   *wallet.Wallet // wallet mode: the manager is the wallet's
+}
+
+// fakeChain is the least chain backend CreateSimpleTx and NewAddress need.
+type fakeChain struct{}
+
+var _ chain.Interface = fakeChain{}
+
+func (fakeChain) Start() error     { return nil }
+func (fakeChain) Stop()            {}
+func (fakeChain) WaitForShutdown() {}
+func (fakeChain) GetBestBlock() (*chainhash.Hash, int32, error) {
+	return &chainhash.Hash{}, 200, nil
+}
+func (fakeChain) GetBlock(*chainhash.Hash) (*wire.MsgBlock, error) {
+	return nil, errors.New("no block")
+}
+func (fakeChain) GetBlockHash(int64) (*chainhash.Hash, error) { return nil, errors.New("no hash") }
+func (fakeChain) GetBlockHeader(*chainhash.Hash) (*wire.BlockHeader, error) {
+	return nil, errors.New("no header")
+}
+func (fakeChain) IsCurrent() bool { return true }
+func (fakeChain) FilterBlocks(*chain.FilterBlocksRequest) (*chain.FilterBlocksResponse, error) {
+	return nil, nil
+}
+func (fakeChain) BlockStamp() (*waddrmgr.BlockStamp, error) {
+	return &waddrmgr.BlockStamp{Height: 200, Timestamp: time.Unix(1700000000, 0)}, nil
+}
+func (fakeChain) SendRawTransaction(*wire.MsgTx, bool) (*chainhash.Hash, error) {
+	return nil, errors.New("not connected")
+}
+func (fakeChain) Rescan(*chainhash.Hash, []btcutil.Address, map[wire.OutPoint]btcutil.Address) error {
+	return nil
+}
+func (fakeChain) NotifyReceived([]btcutil.Address) error { return nil }
+func (fakeChain) NotifyBlocks() error                    { return nil }
+func (fakeChain) Notifications() <-chan interface{}      { return nil }
+func (fakeChain) BackEnd() string                        { return "verif" }
+func (fakeChain) TestMempoolAccept([]*wire.MsgTx, float64) ([]*btcjson.TestMempoolAcceptResult, error) {
+	return nil, nil
+}
+func (fakeChain) MapRPCErr(err error) error { return err }
+
+// openWallet opens a real wallet.Wallet on the file (behind abortdb), attaches
+// the fake chain WITHOUT starting the notification goroutines (verif hook) and
+// unlocks it.
+func openWallet(path string, scope waddrmgr.KeyScope) (*inst, error) {
+	raw, err := walletdb.Open("bdb", path, true, time.Minute, false)
+	if err != nil {
+		return nil, err
+	}
+	in := &inst{db: abortdb.New(raw)}
+	w, err := wallet.Open(in.db, pubPass, nil, params, 250)
+	if err != nil {
+		raw.Close()
+		return nil, err
+	}
+	w.Start()
+	w.VerifSetChainClient(fakeChain{})
+	if err := w.Unlock(privPass, nil); err != nil {
+		return nil, err
+	}
+	in.w, in.mgr = w, w.Manager
+	in.sm, err = w.Manager.FetchScopedKeyManager(scope)
+	if err != nil {
+		return nil, err
+	}
+	return in, nil
+}
+
+// fund gives the wallet one confirmed output paying to addr (transaction
+// store only; the address manager is not involved).
+func (in *inst) fund(addr btcutil.Address) error {
+	script, err := txscript.PayToAddrScript(addr)
+	if err != nil {
+		return err
+	}
+	tx := wire.NewMsgTx(2)
+	tx.AddTxIn(&wire.TxIn{PreviousOutPoint: wire.OutPoint{Index: 7}})
+	tx.AddTxOut(wire.NewTxOut(100000000, script))
+	var b bytes.Buffer
+	if err := tx.Serialize(&b); err != nil {
+		return err
+	}
+	rec, err := wtxmgr.NewTxRecord(b.Bytes(), time.Unix(1650000000, 0))
+	if err != nil {
+		return err
+	}
+	blk := &wtxmgr.BlockMeta{Block: wtxmgr.Block{Hash: chainhash.Hash{1}, Height: 100}, Time: time.Unix(1650000000, 0)}
+	return walletdb.Update(in.db, func(dbtx walletdb.ReadWriteTx) error {
+		ns := dbtx.ReadWriteBucket([]byte("wtxmgr"))
+		if err := in.w.TxStore.InsertTx(ns, rec, blk); err != nil {
+			return err
+		}
+		return in.w.TxStore.AddCredit(ns, rec, blk, 0, false)
+	})
+}
+
+// walletCall performs one issuance through the wallet API and returns the
+// outcome in the shape of the corresponding manager op.
+func (in *inst) walletCall(w *world, o op) answer {
+	k := w.scope
+	var addr btcutil.Address
+	var err error
+	switch o.Via {
+	case "newaddress":
+		addr, err = in.w.NewAddress(o.Acct, k)
+	case "newchange":
+		addr, err = in.w.NewChangeAddress(o.Acct, k)
+	case "createtx", "createtxdry":
+		pay, perr := txscript.PayToAddrScript(w.keyAddr[0])
+		if perr != nil {
+			return errAns(perr)
+		}
+		a, cerr := in.w.CreateSimpleTx(&k, o.Acct, []*wire.TxOut{wire.NewTxOut(10000, pay)}, 1, 2000,
+			wallet.CoinSelectionLargest, o.Via == "createtxdry", wallet.WithCustomChangeScope(&k))
+		err = cerr
+		if err == nil {
+			if a.ChangeIndex < 0 {
+				return answer{K: "err", Err: "other:no change output"}
+			}
+			_, addrs, _, xerr := txscript.ExtractPkScriptAddrs(a.Tx.TxOut[a.ChangeIndex].PkScript, params)
+			if xerr != nil || len(addrs) != 1 {
+				return answer{K: "err", Err: "other:change script not understood"}
+			}
+			addr = addrs[0]
+		}
+	default:
+		return answer{K: "err", Err: "other:unknown wallet call " + o.Via}
+	}
+	if err != nil {
+		return errAns(err)
+	}
+	return answer{K: "addrs", Addrs: [][]uint32{w.refOf(addr)}}
 }
 
 func openInst(path string, scope waddrmgr.KeyScope, unlock bool) (*inst, error) {
@@ -444,6 +607,12 @@ func openInst(path string, scope waddrmgr.KeyScope, unlock bool) (*inst, error) 
 }
 
 func (in *inst) close() {
+	if in.w != nil {
+		in.w.Stop()
+		in.w.WaitForShutdown()
+		in.db.Close()
+		return
+	}
 	if in.mgr != nil {
 		in.mgr.Close()
 	}
@@ -1116,10 +1285,19 @@ func runHistory(e *env, in input) (*caseOut, error) {
 		return nil, err
 	}
 	path := filepath.Join(e.dir, "run.db")
-	if err := os.WriteFile(path, e.base[0], 0600); err != nil {
+	img := e.base[0]
+	if in.Wallet {
+		img = e.base[1]
+	}
+	if err := os.WriteFile(path, img, 0600); err != nil {
 		return nil, err
 	}
-	r, err := openInst(path, w.scope, true)
+	var r *inst
+	if in.Wallet {
+		r, err = openWallet(path, w.scope)
+	} else {
+		r, err = openInst(path, w.scope, true)
+	}
 	if err != nil {
 		return nil, err
 	}
@@ -1207,6 +1385,52 @@ func runHistory(e *env, in input) (*caseOut, error) {
 				rn.names = o.Name
 			}
 		}
+		if in.Wallet {
+			// one issuance per transaction, performed (and committed or rolled
+			// back) by the wallet itself
+			if len(t.Ops) != 1 || t.Ops[0].K != "next" || t.Ops[0].N != 1 ||
+				(t.Fate == "dryrun") != (t.Ops[0].Via == "createtxdry") || (t.Fate != "commit" && t.Fate != "dryrun") {
+				return nil, fmt.Errorf("transaction %d: not a wallet-mode transaction", ti)
+			}
+			before := r.db.Commits
+			a := r.walletCall(w, t.Ops[0])
+			to.Outs = append(to.Outs, a)
+			committed := r.db.Commits > before
+			if committed != (t.Fate == "commit") && a.K == "addrs" {
+				return nil, fmt.Errorf("transaction %d: fate %q but the wallet committed=%v", ti, t.Fate, committed)
+			}
+			if t.Fate == "dryrun" {
+				to.Err = "dryrun"
+			}
+			if ti == 0 && a.K == "addrs" {
+				ad, err := w.addrOf(a.Addrs[0])
+				if err != nil {
+					return nil, err
+				}
+				if err := r.fund(ad); err != nil {
+					return nil, err
+				}
+			}
+			if t.Fate == "commit" && a.K == "addrs" {
+				rn.issued = append(rn.issued, a.Addrs...)
+			}
+			if t.Fate != "commit" && a.K == "addrs" {
+				for _, ref := range a.Addrs {
+					k := fmt.Sprint(ref)
+					if _, ok := rn.phantomSite[k]; !ok {
+						rn.phantomSite[k] = "NextAddresses-in-aborted-tx"
+					}
+				}
+			}
+			qas, _, err := rn.boundary()
+			if err != nil {
+				return nil, err
+			}
+			to.Q = qas
+			record(ti, t, qas)
+			out.Obs.Txs = append(out.Obs.Txs, to)
+			continue
+		}
 		if t.Fate == "failcommit" {
 			r.db.FailNextCommit()
 		}
@@ -1256,7 +1480,12 @@ func runHistory(e *env, in input) (*caseOut, error) {
 				switch {
 				case o.K == "next" && to.Outs[i].K == "addrs":
 					for _, ref := range to.Outs[i].Addrs {
-						note(ref, "NextAddresses-in-aborted-tx")
+						if readBackCached {
+							note(ref, "NextAddresses-in-aborted-tx")
+						} else {
+							// only an explicit lookup before the rollback caches it
+							note(ref, "NextAddresses+Address-in-aborted-tx")
+						}
 					}
 				case o.K == "extend" && to.Outs[i].K == "ok":
 					b := uint32(0)
@@ -1285,6 +1514,49 @@ func runHistory(e *env, in input) (*caseOut, error) {
 	return out, nil
 }
 
+// readBackCached says whether the implementation under test puts the address
+// nextAddresses reads back into the cache before commit (finding S4); it is
+// measured once at start-up on a scratch database (probeReadBack) and only
+// steers tags and site names - the Coq side takes the same fact from
+// coq/Generated/AddrCache.v.
+var readBackCached = true
+
+func probeReadBack(e *env) (bool, error) {
+	w, err := newWorld(84)
+	if err != nil {
+		return false, err
+	}
+	path := filepath.Join(e.dir, "probe.db")
+	if err := os.WriteFile(path, e.base[0], 0600); err != nil {
+		return false, err
+	}
+	r, err := openInst(path, w.scope, true)
+	if err != nil {
+		return false, err
+	}
+	defer func() { r.close(); os.Remove(path) }()
+	var issued btcutil.Address
+	uerr := walletdb.Update(r.db, func(tx walletdb.ReadWriteTx) error {
+		ns := tx.ReadWriteBucket(nsKey)
+		mas, err := r.sm.NextInternalAddresses(ns, 0, 1)
+		if err != nil {
+			return err
+		}
+		issued = mas[0].Address()
+		return walletdb.ErrDryRunRollBack
+	})
+	if !errors.Is(uerr, walletdb.ErrDryRunRollBack) {
+		return false, fmt.Errorf("probe: %v", uerr)
+	}
+	found := false
+	err = walletdb.View(r.db, func(tx walletdb.ReadTx) error {
+		_, err := r.sm.Address(tx.ReadBucket(nsKey), issued)
+		found = err == nil
+		return nil
+	})
+	return found, err
+}
+
 // ---------------------------------------------------------------- K (tags only)
 
 // inK mirrors the decidable trigger pattern of coq/Addr/MemDisk.v (in_K): an
@@ -1311,14 +1583,23 @@ func txInK(t txIn) bool {
 		}
 		return false
 	}
-	armed := false
+	armed, issued := false, false
 	for _, o := range t.Ops {
 		switch o.K {
-		case "rename", "next", "extend", "setsynced", "setsyncednil", "setbirthday", "impkey", "impscript":
+		case "rename", "extend", "setsynced", "setsyncednil", "setbirthday", "impkey", "impscript":
 			return true
+		case "next":
+			if readBackCached || armed {
+				return true
+			}
+			issued = true
 		case "newacct":
 			armed = true
-		case "props", "last", "lookup":
+		case "lookup":
+			if armed || issued {
+				return true
+			}
+		case "props", "last":
 			if armed {
 				return true
 			}
@@ -1330,6 +1611,7 @@ func txInK(t txIn) bool {
 func tagsOf(in input, out *caseOut) []string {
 	set := map[string]bool{}
 	set[fmt.Sprintf("scope_%d", in.Scope)] = true
+	set[fmt.Sprintf("read_back_cached_%v", readBackCached)] = true
 	k := false
 	onlyIssueAborted := true
 	anyAbortedIssue := false
@@ -1576,6 +1858,28 @@ func genHistory(r *gen.R, tier string) input {
 	return in
 }
 
+// genWalletHistory draws a wallet-mode history: NewAddress first (the funded
+// address), then issuance through NewAddress / NewChangeAddress /
+// CreateSimpleTx, with CreateSimpleTx(dryRun=true) in between.
+func genWalletHistory(r *gen.R) input {
+	in := input{Scope: 84, Wallet: true}
+	in.Txs = append(in.Txs, txIn{Fate: "commit", Ops: []op{{K: "next", Acct: 0, N: 1, Via: "newaddress"}}})
+	n := r.Range(3, 7)
+	for i := 0; i < n; i++ {
+		switch r.Pick(4, 2, 2, 1) {
+		case 0:
+			in.Txs = append(in.Txs, txIn{Fate: "dryrun", Ops: []op{{K: "next", Acct: 0, Int: true, N: 1, Via: "createtxdry"}}})
+		case 1:
+			in.Txs = append(in.Txs, txIn{Fate: "commit", Ops: []op{{K: "next", Acct: 0, Int: true, N: 1, Via: "createtx"}}})
+		case 2:
+			in.Txs = append(in.Txs, txIn{Fate: "commit", Ops: []op{{K: "next", Acct: 0, Int: true, N: 1, Via: "newchange"}}})
+		default:
+			in.Txs = append(in.Txs, txIn{Fate: "commit", Ops: []op{{K: "next", Acct: 0, N: 1, Via: "newaddress"}}})
+		}
+	}
+	return in
+}
+
 // systematic returns the fixed histories run before the random ones: every
 // eager update inside every kind of aborted transaction, the dry-run
 // issuance scenario, and the same-transaction patterns.
@@ -1626,6 +1930,8 @@ func systematic() []input {
 			{Fate: "commit", Ops: []op{{K: "newacct", Name: 6}, {K: "next", Acct: 1, N: 1}}}}},
 		input{Scope: 44, Txs: []txIn{{Fate: "abort", Ops: []op{{K: "impkey", Key: 0, Hash: -1}}},
 			{Fate: "commit", Ops: []op{{K: "impkey", Key: 0, Hash: -1}}}}},
+		input{Scope: 84, Txs: []txIn{{Fate: "dryrun", Ops: []op{{K: "next", Acct: 0, Int: true, N: 1}, {K: "lookup", Addr: []uint32{0, 0, 1, 0}}}},
+			{Fate: "commit", Ops: []op{{K: "next", Acct: 0, Int: true, N: 1}}}}},
 		input{Scope: 84, Txs: []txIn{{Fate: "commit", Ops: []op{{K: "next", Acct: 0, N: 1}}},
 			{Fate: "commit", Ops: []op{{K: "markused", Addr: []uint32{0, 0, 0, 0}}, {K: "lookup", Addr: []uint32{0, 0, 0, 0}}}},
 			{Fate: "abort", Ops: []op{{K: "markused", Addr: []uint32{0, 0, 0, 1}}, {K: "lookup", Addr: []uint32{0, 0, 0, 0}}}}}},
@@ -1635,11 +1941,20 @@ func systematic() []input {
 
 func main() {
 	core.Main("c08", nil, func(c *core.Common, out *core.Emitter) error {
+		// wallet.Create/Open use the default scrypt parameters (N=2^18);
+		// the harness replaces the key generator by a fast one
+		waddrmgr.SetSecretKeyGen(func(pass *[]byte, _ *waddrmgr.ScryptOptions) (*snacl.SecretKey, error) {
+			return snacl.NewSecretKey(pass, 16, 8, 1)
+		})
 		e, err := newEnv()
 		if err != nil {
 			return err
 		}
 		defer os.RemoveAll(e.dir)
+		readBackCached, err = probeReadBack(e)
+		if err != nil {
+			return err
+		}
 		runOne := func(in input, extra ...string) error {
 			co, err := runHistory(e, in)
 			if err != nil {
@@ -1662,6 +1977,17 @@ func main() {
 		}
 		for _, h := range systematic() {
 			if err := runOne(h, "systematic"); err != nil {
+				return err
+			}
+		}
+		// the full-wallet path: wallet.CreateSimpleTx(dryRun) and friends
+		rw := gen.New(c.Seed, 88)
+		nw := 12
+		if c.Tier == "thorough" {
+			nw = 150
+		}
+		for i := 0; i < nw; i++ {
+			if err := runOne(genWalletHistory(rw), "wallet_api"); err != nil {
 				return err
 			}
 		}
